@@ -483,6 +483,7 @@ type GhostStmt struct {
 	Expr *SX
 	Args []*SX
 	Raw  string
+	Label string
 }
 
 type LoopSpec struct {
@@ -601,8 +602,9 @@ func parseGhostStmt(s string) (GhostStmt, error) {
 	s = strings.TrimSpace(s)
 	switch {
 	case strings.HasPrefix(s, "assert "):
-		e, err := parseSpecExpr(s[7:])
-		return GhostStmt{Kind: "assert", Expr: e, Raw: s}, err
+		lbl, rest := splitLabel(strings.TrimSpace(s[7:]))
+		e, err := parseSpecExpr(rest)
+		return GhostStmt{Kind: "assert", Expr: e, Raw: s, Label: lbl}, err
 	case strings.HasPrefix(s, "assume "):
 		e, err := parseSpecExpr(s[7:])
 		return GhostStmt{Kind: "assume", Expr: e, Raw: s}, err
